@@ -285,6 +285,11 @@ func c09Packed(r *ev.Run) int64 {
 		if vid < 3 || vid > 0xffc || vid == 0x800 || vid == 100 {
 			run(corpus.Eth(corpus.Vlan(pcp, dei, vid), 0x88b5, corpus.Opaque(4)), fmt.Sprintf("frame TCI=%#04x", tci))
 		}
+		// inside a frame whose payload has a decoder: all VIDs for two PCP/DEI settings, all PCP x DEI
+		// for the boundary VIDs (the tag's bits have no say in the choice of the payload decoder)
+		if vid != 0 && (tci>>12 == 0 || tci>>12 == 0xb || vid < 3 || vid > 0xffc) {
+			run(corpus.Eth(corpus.Vlan(pcp, dei, vid), 0x0806, corpus.Arp(1)), fmt.Sprintf("ARP frame TCI=%#04x", tci))
+		}
 	}
 	r.Completed("P1 VLAN tag: all 65536 (PCP, DEI, VID) combinations standalone; all PCP x DEI with boundary VIDs (incl. 0) inside a frame")
 	// IPv4 version x IHL (>= 5, options consistent), DSCP x ECN, flags x fragment offset
@@ -304,8 +309,13 @@ func c09Packed(r *ev.Run) int64 {
 		t := corpus.IPv4(253, 0, corpus.Opaque(0))
 		t.Set("Flags", x>>13).Set("FragmentOffset", x&0x1fff)
 		run(t, fmt.Sprintf("flags/fragment=%#04x", x))
+		// and in front of a payload the library has a decoder for: the choice of the decoder is the
+		// protocol number's business, whatever the fragment bits say
+		t = corpus.IPv4(17, 0, corpus.Udp(4))
+		t.Set("Flags", x>>13).Set("FragmentOffset", x&0x1fff)
+		run(t, fmt.Sprintf("flags/fragment=%#04x before UDP", x))
 	}
-	r.Completed("P2 IPv4: version x IHL (5..15) all 176; DSCP x ECN all 256; flags x fragment offset all 65536")
+	r.Completed("P2 IPv4: version x IHL (5..15) all 176; DSCP x ECN all 256; flags x fragment offset all 65536 (opaque and UDP payload)")
 	// IPv6 version x class (4096) x flow label boundary set
 	labels := []uint64{0, 0xfffff, 0x12345, 0xabcde}
 	for i := uint(0); i < 20; i++ {
